@@ -1,6 +1,8 @@
 import XtModel.Lemmas.Chunker
 import XtModel.Lemmas.Output
 import XtModel.Lemmas.Guards
+import XtModel.Props.C18
+import XtModel.Props.Json
 
 /-!
 # C03 — Multi-document and multi-input output is the ordered concatenation
@@ -502,5 +504,10 @@ example : (Xt.Chunker.Reader.read ⟨[], 0⟩ [0, 0, 0, 0] (.ok 5 [1, 2, 3])) = 
 #print axioms chunkreader_overreport_is_clean_panic
 #print axioms stash_cleared_on_success
 #print axioms chunker_stack_overreport
+
+#print axioms Xt.Props.C18.msgpack_frame_recover
+#print axioms Xt.Props.Json.json_frame_recover
+#print axioms Xt.Props.Json.json_split_sources
+#print axioms Xt.Props.Json.json_write_no_newline
 
 end Xt.Props.C03
